@@ -5,6 +5,7 @@ Imports only Prim/Gen/Model/Spec — no Mathlib — so it links as a native exec
 import Driver.Proto
 import Shp.Spec.Gen
 import Shp.Spec.Expected
+import Shp.Model.Pairs
 open Shp Shp.Proto
 
 def toFloat (f : F64) : Float := Float.ofBits f.bits
@@ -48,6 +49,29 @@ def wops (n : Nat) : P (List (Option WCall)) :=
       | none => pure none
     | "f" => pure (some .finalize)
     | _ => failP)
+
+def f64OfNat (n : Nat) : F64 := ⟨(Float.ofNat n).toBits⟩
+def f64Half : F64 := ⟨(0.5 : Float).toBits⟩
+
+/-- count the records of a `.shp` by walking its record headers -/
+partial def countRecords (bs : Bytes) (pos : Nat) (acc : Nat) : Nat :=
+  match (bs.drop (pos + 4)) with
+  | a :: b :: c :: d :: _ =>
+    let len := decU32BE a b c d
+    if len < 2 then acc else countRecords bs (pos + 8 + 2 * len) (acc + 1)
+  | _ => acc
+
+def pairShape (base : String) (q : Nat) : Option Shape :=
+  let v := f64OfNat q
+  match base with
+  | "PointZ" => some (.point .xyzm ⟨v, f64OfNat 1, f64OfNat 2, f64OfNat 3⟩)
+  | "Polyline" => Shape.mkPolyline .xy [{ Pt.default with x := v, y := f64OfNat 0 }, { Pt.default with x := v, y := f64OfNat (1 + q) }]
+  | _ => some (.point .xy { Pt.default with x := v, y := f64Half })
+
+def otherShape (base : String) (q : Nat) : Option Shape :=
+  let v := f64OfNat q
+  if base = "Polyline" then some (.point .xy { Pt.default with x := v, y := f64OfNat 0 })
+  else Shape.mkPolyline .xy [{ Pt.default with x := v, y := f64OfNat 0 }, { Pt.default with x := v, y := f64OfNat 1 }]
 
 def runCase (verb : String) : P String := do
   match verb with
@@ -162,6 +186,22 @@ def runCase (verb : String) : P String := do
         | some f => let (st', r) := st.step o tg (f st); (st', showRes r :: outs)
         | none => (st, "bad-op" :: outs)) (st, [])
       pure ("open ok ; " ++ String.intercalate " ; " outs.reverse)
+  | "dbfhist" => do
+    let base ← tok
+    let n ← nat
+    let ops ← many n tok
+    let (pw, outs, _) := ops.foldl (fun (acc : PWorld × List String × Nat) (op : String) =>
+      let (pw, outs, q) := acc
+      let shape := if op = "s" ∧ q > 0 then otherShape base q else pairShape base q
+      match shape with
+      | none => (pw, "panic" :: outs, q + 1)
+      | some s =>
+        let (pw', r) := pw.call s (op = "g" ∨ op = "s")
+        (pw', showExcept r :: outs, q + 1)) (PWorld.init, [], 0)
+    let w := pw.w.drop
+    let nshp := countRecords w.shp.data 100 0
+    let nshx := (w.shx.data.length - 100) / 8
+    pure (String.intercalate " ; " outs.reverse ++ s!" | shp={nshp} shx={nshx} dbf={pw.rows}")
   | "code" => do
     let c ← int
     match ShapeType.ofCode c with
